@@ -315,6 +315,20 @@ namespace chaiscript {
     };
   } // namespace detail
 
+#ifdef CHAISCRIPT_VERIF
+  /// verification hooks: switch for the per-node lookup cache and a counter of cached (fast path) local lookups
+  namespace verif {
+    inline std::atomic<bool> &lookup_cache_off() noexcept {
+      static std::atomic<bool> v{false};
+      return v;
+    }
+    inline std::atomic<unsigned long> &lookup_fast_hits() noexcept {
+      static std::atomic<unsigned long> v{0};
+      return v;
+    }
+  } // namespace verif
+#endif
+
   namespace detail {
     struct Stack_Holder {
       // template <class T, std::size_t BufSize = sizeof(T)*20000>
@@ -509,6 +523,14 @@ namespace chaiscript {
         };
 
         uint_fast32_t loc = t_loc;
+
+#ifdef CHAISCRIPT_VERIF
+        if (chaiscript::verif::lookup_cache_off().load(std::memory_order_relaxed)) {
+          loc = 0; // forget whatever this node cached: always search by name
+        } else if ((loc & static_cast<uint_fast32_t>(Loc::is_local)) != 0u) {
+          chaiscript::verif::lookup_fast_hits().fetch_add(1, std::memory_order_relaxed);
+        }
+#endif
 
         if (loc == 0) {
           auto &stack = get_stack_data(t_holder);
